@@ -207,42 +207,55 @@ def _fix_variable_names(
 def _fix_undefined_variables(source: str, variables: Collection[str]) -> str:
     variables = set(variables)
 
-    lines = source.splitlines()
-    change_count = -len(lines)
-    lineno = next(
-        i
-        for i, line in enumerate(lines)
-        if not line.startswith("#")
-        and not line.startswith("'''")
-        and not line.startswith('"""')
-        and not line.startswith("from __future__ import")
-    )
+    # Imports go below the module docstring and the __future__ imports (which may span several
+    # lines), otherwise below the comments that open the file
+    lineno = 0
+    for i, node in enumerate(core.parse(source).body):
+        if (
+            i == 0 and core.match_template(node, ast.Expr(value=ast.Constant(value=str)))
+        ) or core.match_template(node, ast.ImportFrom(module="__future__")):
+            lineno = node.end_lineno
+        else:
+            break
+
+    line_start_charnos = core._get_line_start_charnos(source)
+    if lineno == 0:
+        while lineno < len(line_start_charnos) and source.startswith(
+            "#", line_start_charnos[lineno]
+        ):
+            lineno += 1
+
+    fixes = []
     for package, package_variables in constants.ASSUMED_SOURCES.items():
         overlap = variables.intersection(package_variables)
         if overlap:
             fix = f"from {package} import " + ", ".join(sorted(overlap))
             logger.debug("Inserting '{fix}' at line {lineno}", fix=fix, lineno=lineno)
-            lines.insert(lineno, fix)
+            fixes.insert(0, fix)
 
     for package in (constants.ASSUMED_PACKAGES | constants.PYTHON_311_STDLIB) & variables:
         fix = f"import {package}"
         logger.debug("Inserting '{fix}' at line {lineno}", fix=fix, lineno=lineno)
-        lines.insert(lineno, fix)
+        fixes.insert(0, fix)
 
     for alias in constants.PACKAGE_ALIASES.keys() & variables:
         package = constants.PACKAGE_ALIASES[alias]
         fix = f"import {package} as {alias}"
         logger.debug("Inserting '{fix}' at line {lineno}", fix=fix, lineno=lineno)
-        lines.insert(lineno, fix)
+        fixes.insert(0, fix)
 
-    change_count += len(lines)
-
-    assert change_count >= 0
-
-    if change_count == 0:
+    if not fixes:
         return source
 
-    return "\n".join(lines) + "\n"
+    if lineno < len(line_start_charnos):
+        charno = line_start_charnos[lineno]
+    else:
+        charno = len(source)
+        if source and not source.endswith(("\n", "\r")):
+            source += "\n"
+            charno += 1
+
+    return source[:charno] + "".join(fix + "\n" for fix in fixes) + source[charno:]
 
 
 def add_missing_imports(source: str) -> str:
